@@ -320,3 +320,72 @@ func VerifC19_ReferencedIncludes() {
 	}
 	verifReach("end")
 }
+
+func init() {
+	verifHarnesses["VerifC11_IncludedTypedefs"] = VerifC11_IncludedTypedefs
+}
+
+// Typedefs across an include. The included file `inc` declares `typedef i32 A`, `typedef A B` (a chain
+// INSIDE the include) and a struct S with `typedef S PS`; the program declares `typedef inc.A C`,
+// `typedef C D` (a local chain that ends in the include) and - parameter 1 - the same-name re-export
+// `typedef inc.A A`. Every use must be accepted by validate() and resolve, in a bounded number of
+// steps, to the base type (i32) or to the included struct - never to a typedef name.
+func VerifC11_IncludedTypedefs() {
+	mk := func(name string) *Frugal {
+		return &Frugal{Name: name, ParsedIncludes: map[string]*Frugal{}, typedefIndex: map[string]*TypeDef{}, namespaceIndex: map[string]*Namespace{}}
+	}
+	addTd := func(f *Frugal, name string, t *Type) {
+		td := &TypeDef{Name: name, Type: t}
+		f.Typedefs = append(f.Typedefs, td)
+		f.typedefIndex[name] = td
+	}
+	inc := mk("inc")
+	inc.Structs = []*Struct{{Name: "S"}}
+	addTd(inc, "A", &Type{Name: "i32"})
+	addTd(inc, "B", &Type{Name: "A"})
+	addTd(inc, "PS", &Type{Name: "S"})
+	f := mk("p")
+	f.ParsedIncludes["inc"] = inc
+	f.Includes = []*Include{{Name: "inc", Value: "inc.frugal"}}
+	addTd(f, "C", &Type{Name: "inc.A"})
+	addTd(f, "D", &Type{Name: "C"})
+	reexport := verifParam() == 1
+	if reexport {
+		addTd(f, "A", &Type{Name: "inc.A"})
+		verifReach("same-name-re-export")
+	}
+	uses := []string{"inc.A", "C", "D", "inc.B", "inc.S", "inc.PS"}
+	if reexport {
+		uses = append(uses, "A")
+	}
+	use := uses[verifChoice(len(uses))]
+	t := &Type{Name: use}
+	switch verifChoice(3) {
+	case 1:
+		t = &Type{Name: "list", ValueType: t}
+	case 2:
+		t = &Type{Name: "map", KeyType: &Type{Name: "string"}, ValueType: t}
+	}
+	f.Structs = []*Struct{{Name: "Use", Fields: []*Field{{ID: 1, Name: "f", Modifier: Default, Type: t}}}}
+	verifAssert(f.validate() == nil, "a program that uses typedefs of an included file is accepted")
+	leaf := &Type{Name: use}
+	verifNoPanic("type resolution panics on a valid program with an include", func() {
+		u := f.UnderlyingType(leaf)
+		switch use {
+		case "inc.S", "inc.PS":
+			if use == "inc.PS" {
+				// (known finding F26, second site: the target `S` is returned unqualified, i.e. as a name of the INCLUDING file)
+				verifAssert(u.Name == "inc.S", "a typedef of a struct declared in the included file resolves to that struct")
+			} else {
+				verifAssert(u.Name == "inc.S", "an included struct is its own underlying type")
+			}
+		case "inc.B":
+			verifAssert(u.Name == "i32", "a typedef chain INSIDE an included file resolves to its base type from the including file")
+		default:
+			verifAssert(u.Name == "i32", "a typedef that leads into an included file resolves to the base type")
+		}
+		verifAssert(!f.IsStruct(&Type{Name: "C"}) && !f.IsStruct(&Type{Name: "D"}) && !f.IsStruct(&Type{Name: "inc.A"}), "an alias of i32 is not a struct")
+		verifAssert(f.IsStruct(&Type{Name: "inc.S"}), "the included struct is a struct")
+	})
+	verifReach("end")
+}
